@@ -12,7 +12,7 @@ changed; variant: needed - allocated), the pre-conditions of every callee at its
   * FAT: G[j] -> G[j+1], last -> $C0+s, every other entry 0..67 unchanged, bytes 68..255 of the sector zero   (C08)
   * the directory slot used was free; nothing outside the allocated granules, the FAT sector and that
     directory entry differs from the incoming image                                                     (C08 frame)
-  * the stream in chain order is header || data || trailer (from write_to_granules' contract; no-straddle case)
+  * the stream in chain order is header || data || trailer (from write_to_granules' contract)
 """
 import z3
 
@@ -53,8 +53,6 @@ class DiskAddFile:
         L = env.holes.get("L", 0)
         ftype, dtype = {"ML": (2, 0), "BASIC": (0, 0), "ASCII": (1, 0xFF)}[kind]
         pre_len, post_len = {"ML": (5, 5), "BASIC": (3, 0), "ASCII": (0, 0)}[kind]
-        if kind == "ML" and (L + 5) % GR > 2299:
-            raise sym.PathAbort()
         data = [(5 * i + 1) % 253 for i in range(L)]
         # a consistent, partly used image: one earlier file on scattered granules
         old = ("OLD", "BIN", 2, 0, 0x2000, 0x2002, [9] * 5000)
@@ -101,8 +99,6 @@ class DiskAddFile:
         data = ArrList(DA, L)
         total = pl + L + postlen
         need = sym.floordiv(total, GR) + 1
-        if postlen:
-            p.assume(((pl + L) % GR) <= 2299)
         d = F.new(DSK, "DiskFile")
         A0 = z3.Array("A0", z3.IntSort(), z3.IntSort())
         buf = ArrList(A0, N)
